@@ -106,6 +106,7 @@ mutual
     | .fail => [.other "fail"]
     | .struct fs => toksFields fs
     | .list cw _ _ _ e => (if cw = 0 then Tok.varuint else Tok.raw cw) :: .loop :: toks e ++ [.close]
+    | .listI _ e => Tok.varuint :: .loop :: toks e ++ [.close]
     | .tagged tw cs _ =>
       .raw tw ::
         (match toksCases cs with
@@ -219,7 +220,18 @@ def expectedDeep : List Expect := [
   ⟨"VotesRealWithdrawPayload", allVersions, true, fun _ => toks votesRealWithdraw⟩,
   ⟨"CreateNFT", allVersions, true, fun v => toks (createNFT v)⟩,
   ⟨"NFTDestroyFromSideChain", allVersions, true, fun _ => toks nftDestroyFromSideChain⟩,
-  ⟨"RecordProposalResult", allVersions, true, fun _ => toks recordProposalResult⟩
+  ⟨"RecordProposalResult", allVersions, true, fun _ => toks recordProposalResult⟩,
+  ⟨"CRCProposal/<other>", allVersions, true, fun v => .raw 2 :: toks (crcNormal v)⟩,
+  ⟨"CRCProposal/ChangeProposalOwner", allVersions, true, fun v => .raw 2 :: toks (crcChangeOwner v)⟩,
+  ⟨"CRCProposal/CloseProposal", allVersions, true, fun v => .raw 2 :: toks (crcClose v)⟩,
+  ⟨"CRCProposal/SecretaryGeneral", allVersions, true, fun v => .raw 2 :: toks (crcSecretary v)⟩,
+  ⟨"CRCProposal/MainChainUpgradeCode", allVersions, true, fun _ => .raw 2 :: toks crcUpgrade⟩,
+  ⟨"CRCProposal/DIDUpgradeCode", allVersions, true, fun _ => .raw 2 :: toks crcUpgrade⟩,
+  ⟨"CRCProposal/ETHUpgradeCode", allVersions, true, fun _ => .raw 2 :: toks crcUpgrade⟩,
+  ⟨"CRCProposal/RegisterSideChain", allVersions, true, fun v => .raw 2 :: toks (crcSideChain v)⟩,
+  ⟨"CRCProposal/ReserveCustomID", allVersions, true, fun v => .raw 2 :: toks (crcReserveID v)⟩,
+  ⟨"CRCProposal/ReceiveCustomID", allVersions, true, fun v => .raw 2 :: toks (crcReceiveID v)⟩,
+  ⟨"CRCProposal/ChangeCustomIDFee", allVersions, true, fun v => .raw 2 :: toks (crcIDFee v)⟩
 ]
 
 /-- what `SerializeUnsigned` writes in front of what `DeserializeUnsigned` reads: the version byte
@@ -307,6 +319,7 @@ mutual
     | .fail => true
     | .struct fs => hasFailFields fs
     | .list _ _ _ _ e => hasFail e
+    | .listI _ e => hasFail e
     | .tagged _ cs d => hasFailCases cs || hasFail d
     | _ => false
   def hasFailFields : List Ty → Bool
@@ -324,6 +337,7 @@ mutual
     | .fail => true
     | .struct fs => hasFailOutsideListFields fs
     | .list _ _ _ _ _ => false
+    | .listI _ _ => false
     | .tagged _ cs d => hasFailOutsideListCases cs || hasFailOutsideList d
     | _ => false
   def hasFailOutsideListFields : List Ty → Bool
